@@ -331,18 +331,20 @@ def split_semantics(case, lay, rowmap, got):
         if a is None:
             bad.append(f"acquisition row {row} with crypto fee is missing")
             continue
-        cand = [o for o in arts if o[1] == d["ts"][0] and o[3] == d["exch"] and o[4] == d["holder"] and o[8] == cf]
+        cfu, cinu = num11_of_float(fnum(cf)), num11_of_float(fnum(d["crypto_in"]))
+        cand = [o for o in arts if o[1] == d["ts"][0] and o[3] == d["exch"] and o[4] == d["holder"] and o[8] == cfu]
         if not cand:
-            bad.append(f"no artificial fee-only disposal of {cf}e-11 at the instant of row {row}")
+            bad.append(f"no artificial fee-only disposal of {cfu}e-11 at the instant of row {row}")
             continue
         o = cand[0]
-        if o[5] != "FEE" or o[7] != 0 or o[9] != cf:
+        if o[5] != "FEE" or o[7] != 0 or o[9] != cfu:
             bad.append(f"artificial disposal for row {row} is not fee-only: {o}")
         flow = a[7] - o[9]
-        if flow != d["crypto_in"] - cf:
-            bad.append(f"coin flow of row {row}: {flow}, expected crypto_in - fee = {d['crypto_in'] - cf}")
-        nf = _D(d["fiat_in_no_fee"]) if d.get("fiat_in_no_fee") is not None and "fiat_in_no_fee" in lay["in"] else _D(d["crypto_in"]) * _D(d["spot"])
-        wf = _D(d["fiat_in_with_fee"]) if d.get("fiat_in_with_fee") is not None and "fiat_in_with_fee" in lay["in"] else nf + _D(cf) * _D(d["spot"])
+        if flow != cinu - cfu:
+            bad.append(f"coin flow of row {row}: {flow}, expected crypto_in - fee = {cinu - cfu}")
+        cv = lambda v: _D(num11_of_float(fnum(v)))  # noqa: E731  (the value the cell's double carries at 11 decimals)
+        nf = cv(d["fiat_in_no_fee"]) if d.get("fiat_in_no_fee") is not None and "fiat_in_no_fee" in lay["in"] else cv(d["crypto_in"]) * cv(d["spot"])
+        wf = cv(d["fiat_in_with_fee"]) if d.get("fiat_in_with_fee") is not None and "fiat_in_with_fee" in lay["in"] else nf + cv(cf) * cv(d["spot"])
         if a[10] != _P(wf):
             bad.append(f"cost basis of row {row}: {a[10]}, expected {_P(wf)}")
     if len(arts) != want:
